@@ -236,9 +236,6 @@ func (c *Change) Instance(g *G) (string, *Fill) {
 		}
 		if v.Name[0] == 'T' {
 			f.Meta[v.Name] = g.Type(1)
-			for strings.HasPrefix(f.Meta[v.Name], "<-") {
-				f.Meta[v.Name] = g.Type(1)
-			}
 			continue
 		}
 		delim := delimited(minus, v.Name)
